@@ -318,6 +318,14 @@ def drive(r, spec, respond="random", faults=None, max_steps=80):
                     # update is an update like any other: it completes, and whoever waits is told)
                     rects = [enc_cursor(r, spec.pf, r.randrange(3), r.randrange(3), r.choice([1, 4, 9]), r.choice([1, 3]))]
                     msg = spec.sess.update(rects)
+                elif r.random() < .1:
+                    # pixel data followed by the QEMU extended-key pseudo-rectangle (the server's acknowledgement): an update like
+                    # any other - it completes and is committed with the areas of its positional rectangles
+                    msg, rects = gen_update(r, spec.sess, spec.size, kinds=["raw", "rre"], full=(r.random() < .4))
+                    rects = list(rects) + [enc_qemu()]
+                    msg = None
+                    spec_z = [rc for rc in rects if rc.kind == "zrle"]
+                    msg = spec.sess.update(rects)
                 elif r.random() < .08:
                     rects = []
                     msg = spec.sess.update([])          # an update without rectangles
